@@ -17,7 +17,6 @@ import json
 import shutil
 import sys
 import tempfile
-import traceback
 from fractions import Fraction
 
 import common
@@ -353,19 +352,15 @@ def _problem(case, tmp, single=False):
     )
 
 
-def _in_check(exc):
-    """was the exception raised by the fit-range checker?"""
-    names = {f.name for f in traceback.extract_tb(exc.__traceback__)}
-    return bool(names & {"check_fit_ranges", "_check_out_fit_ranges", "check"})
-
-
 def run_ranges(case):
+    """outcome of building the problem the way `Calibration.run_calibration` does: anything raised here is a
+    rejection "before optimisation starts" (which function raises, and with which text, is not behaviour)"""
     tmp = tempfile.mkdtemp(prefix="c11-")
     try:
         try:
             _problem(case, tmp)
         except Exception as e:  # noqa: BLE001
-            return {"outcome": "rejected" if _in_check(e) else "other-error", "error": common.err_kind(e), "msg": str(e)[:160]}
+            return {"outcome": "rejected", "error": common.err_kind(e), "msg": str(e)[:160]}
         return {"outcome": "accepted"}
     finally:
         shutil.rmtree(tmp, ignore_errors=True)
@@ -378,18 +373,23 @@ def run_fitness(case):
     try:
         try:
             prob = _problem(case, tmp)
+        except Exception as e:  # noqa: BLE001
+            return {"error": common.err_kind(e), "msg": str(e)[:300], "stage": "construction"}
+        try:
             return {"fitness": [float(prob.fitness(np.array(x))[0]) for x in case["xs"]]}
         except Exception as e:  # noqa: BLE001
-            return {"error": common.err_kind(e), "msg": str(e)[:300], "in_check": _in_check(e)}
+            return {"error": common.err_kind(e), "msg": str(e)[:300], "stage": "fitness"}
     finally:
         shutil.rmtree(tmp, ignore_errors=True)
 
 
 _REC: list = []
 _TOKEN = {"run": None}
+_RECORDER = {"installed": False, "fitness": False, "marks": False}
 
 
 def _token_of(problem):
+    """identity of the run a problem belongs to: the `_token` argument of its pipeline's probe (public accessors only)"""
     try:
         return problem.param_processor_list[0].get(KEY + "_token")
     except Exception:  # noqa: BLE001
@@ -397,27 +397,49 @@ def _token_of(problem):
 
 
 def _install_recorder():
-    """class-level wrappers (they survive pygmo's deep copies): every fitness evaluation with its value, and
-    a mark whenever the champions of an evolution are collected"""
-    from pyxel.calibration.archipelago_datatree import ArchipelagoDataTree
-    from pyxel.calibration.fitting_datatree import ModelFittingDataTree
-
-    if getattr(ModelFittingDataTree, "_verif_wrapped", False):
+    """class-level wrappers (they survive pygmo's deep copies): every fitness evaluation with its value, and a
+    mark whenever the champions of an evolution are collected.  `fitness` is pygmo's problem protocol; the
+    per-evolution hook is a PRIVATE method of pyxel and is looked up defensively: without it the evaluations cannot
+    be split per evolution, `_RECORDER["marks"]` stays False (reported in the evidence) and the comparison falls
+    back to what the returned tree says publicly (champion arrays per evolution, best final champion = best of
+    all evaluations)."""
+    if _RECORDER["installed"]:
         return
-    orig_f, orig_c = ModelFittingDataTree.fitness, ArchipelagoDataTree._get_champions
+    _RECORDER["installed"] = True
+    try:
+        from pyxel.calibration.fitting_datatree import ModelFittingDataTree
+    except Exception:  # noqa: BLE001
+        return
+    orig_f = getattr(ModelFittingDataTree, "fitness", None)
+    if callable(orig_f):
+        def fitness(self, x):
+            out = orig_f(self, x)
+            try:
+                _REC.append(("eval", [float(t) for t in x], float(out[0]), _token_of(self)))
+            except Exception:  # noqa: BLE001  (the recorder must never change what the code does)
+                pass
+            return out
 
-    def fitness(self, x):
-        out = orig_f(self, x)
-        _REC.append(("eval", [float(t) for t in x], float(out[0]), _token_of(self)))
-        return out
+        ModelFittingDataTree.fitness = fitness
+        _RECORDER["fitness"] = True
+    try:
+        from pyxel.calibration.archipelago_datatree import ArchipelagoDataTree
+    except Exception:  # noqa: BLE001
+        return
+    name = next((n for n in ("_get_champions", "get_champions") if callable(getattr(ArchipelagoDataTree, n, None))), None)
+    if name is None:
+        return
+    orig_c = getattr(ArchipelagoDataTree, name)
 
-    def champs(self):
-        _REC.append(("mark", None, None, _token_of(self.problem)))
-        return orig_c(self)
+    def champs(self, *a, **kw):
+        try:
+            _REC.append(("mark", None, None, _token_of(getattr(self, "problem", None))))
+        except Exception:  # noqa: BLE001
+            pass
+        return orig_c(self, *a, **kw)
 
-    ModelFittingDataTree.fitness = fitness
-    ArchipelagoDataTree._get_champions = champs
-    ModelFittingDataTree._verif_wrapped = True
+    setattr(ArchipelagoDataTree, name, champs)
+    _RECORDER["marks"] = True
 
 
 def run_calibration(case):
@@ -454,7 +476,12 @@ def run_calibration(case):
         try:
             dt = pyxel.run_mode(cal, pyx.make_detector("CCD", *case["det"]), _pipeline(case))
         except Exception as e:  # noqa: BLE001
-            return {"error": common.err_kind(e), "msg": str(e)[:300]}
+            out = {"error": common.err_kind(e), "msg": str(e)[:300], "stage": "run"}
+            try:  # is it the problem's constructor that refuses the declaration (before any optimisation)?
+                _problem(case, tmp, single=single)
+            except Exception:  # noqa: BLE001
+                out["stage"] = "construction"
+            return out
         # only what THIS run's problem evaluated (island threads of an earlier, failed run may still be alive)
         rec = [r for r in list(_REC) if r[3] == run_token]
         out = {"champion_fitness": np.asarray(dt["/champion/fitness"].values, dtype=float).tolist(),
@@ -467,7 +494,9 @@ def run_calibration(case):
                 cur = []
             else:
                 cur.append(r[2])
-        out["evaluated"] = evols
+        n_marks = sum(1 for r in rec if r[0] == "mark")
+        out["evaluated"] = evols if (_RECORDER["marks"] and n_marks == case["evolutions"]) else None
+        out["evaluated_all"] = [r[2] for r in rec if r[0] == "eval"] if _RECORDER["fitness"] else None
         # re-evaluate the last champions on an identically built problem
         prob = _problem(case, tmp, single=single)
         out["refit"] = [float(prob.fitness(np.array(isl[-1]))[0]) for isl in out["champion_decision"]]
@@ -616,7 +645,7 @@ def predicate_ranges(case, impl):
 def predicate_fitness(case, impl):
     sub = case["weights_kind"] == "list" and case["target_range"] != [0, case["det"][0], 0, case["det"][1]]
     if "error" in impl:
-        if impl.get("in_check"):
+        if impl.get("stage") == "construction":
             return ("C11:fit-range-equal-extent-rejected",
                     f"target range {case['target_range']} / result range {case['result_range']} select regions of equal extent inside the target "
                     f"but are rejected: {impl['error']} {impl['msg']}")
@@ -635,7 +664,7 @@ def predicate_fitness(case, impl):
 
 def predicate_run(case, impl):
     if "error" in impl:
-        if "Fitting ranges have different lengths" in impl.get("msg", "") or "fit range is wrong" in impl.get("msg", ""):
+        if impl.get("stage") == "construction":
             return ("C11:fit-range-equal-extent-rejected",
                     f"target range {case['target_range']} / result range {case['result_range']} select regions of equal extent inside the target "
                     f"but the calibration is rejected: {impl['error']} {impl['msg']}")
@@ -765,11 +794,22 @@ def body(ck: common.Check):
         if pv:
             ck.violation(pv[0], pv[1], {"case": case, "impl": {k2: v for k2, v in impl.items() if k2 != "evaluated"}})
         if "error" not in impl and impl.get("evaluated"):
+            ck.count("recorder:per-evolution")
             # the best champion over the islands is the best fitness evaluated so far (pygmo's contract)
             model = [Fraction(a, b) for a, b in ans["model"]]
             best = [min(Fraction(fs[e]) for fs in impl["champion_fitness"]) for e in range(len(model))]
             if model != best:
                 ck.disagreement("run", case, [float(b) for b in best], [float(m) for m in model])
+        elif "error" not in impl and impl.get("evaluated_all"):
+            # the private per-evolution hook was not found (renamed?): public fallback — the champion arrays of the
+            # returned tree (monotone per island: predicate above) and best final champion = best of ALL evaluations
+            ck.count("recorder:fallback-public-observations")
+            best_final = min(Fraction(fs[-1]) for fs in impl["champion_fitness"])
+            best_eval = min(Fraction(v) for v in impl["evaluated_all"])
+            if best_final != best_eval:
+                ck.disagreement("run", case, float(best_final), float(best_eval))
+        elif "error" not in impl:
+            ck.count("recorder:unavailable")  # only the returned tree is judged (monotone, re-fit, returned data)
     ck.rule = ("ranges: targets 2-7 x 2-7 (x 1-4 readouts), detector same or larger, range pairs equal / shifted / unequal / out of bounds / "
                "wild (None, negative, beyond the size) / undeclared, 4- and 6-value result ranges, + the two documented end-point patterns; "
                "fitness: 1-3 target/input pairs (input arguments over a model argument and/or the detector field environment.temperature, own value per target), target files of dtype float64 / uint8 / uint16 / uint32 / int32, weights incl. fractional ones (0.25, 0.5, 1.75), integer data with NaNs, equal and shifted ranges, weights none / per-target list / files, "
@@ -779,6 +819,7 @@ def body(ck: common.Check):
                "+ seeded-stochastic runs (pipeline_seed declared, noise model without own seed): /simulated and /full_size vs an independent seeded "
                "exposure at the reported parameters; every run with loaded data: figure of merit of the RETURNED /simulated data = reported champion fitness; "
                "one- and three-component decision vectors; non-trivial = some range declared")
+    ck.extra["recorder"] = dict(_RECORDER)
     ck.assumptions = ["a 6-value *target* range on a multi-readout target fails in the constructor with \"Dimensions {'time'} do not exist\" on the "
                       "pinned tree (dimension named readout_time); counted as noted:3d-target-range, not judged",
                       "equal-extent integer ranges rejected by the checker are reported (DESIGN section 7), undeclared (None) ranges are only compared with the model",
